@@ -765,10 +765,17 @@ impl Append for ReentryGuard {
 pub fn child_global(args: &[String]) -> i32 {
     use log4rs::config::{Appender, Config, Root};
     let root = PathBuf::from(&args[0]);
-    // the archive directory is a regular file: every rotation fails
-    std::fs::write(root.join("arch"), b"not a directory").unwrap();
+    let final_step = args.get(1).map(|s| s == "1").unwrap_or(false);
+    if final_step {
+        // the newest archive slot is a non-empty directory: the final step of every rotation fails
+        std::fs::create_dir_all(root.join("arch/app.0.log/obstacle")).unwrap();
+        std::fs::write(root.join("arch/app.0.log/obstacle/keep"), b"x").unwrap();
+    } else {
+        // the archive directory is a regular file: every rotation fails before its first step
+        std::fs::write(root.join("arch"), b"not a directory").unwrap();
+    }
     let roller = log4rs::append::rolling_file::policy::compound::roll::fixed_window::FixedWindowRoller::builder()
-        .build(root.join("arch/app.{}.log").to_str().unwrap(), 2).unwrap();
+        .build(root.join("arch/app.{}.log").to_str().unwrap(), if final_step { 1 } else { 2 }).unwrap();
     let inner = match build_appender(&root, true, Box::new(PatternEncoder::new("{m}{n}")), Box::new(SizeTrigger::new(30)), Box::new(roller)) {
         Ok(a) => a,
         Err(e) => {
@@ -795,11 +802,17 @@ pub fn child_global(args: &[String]) -> i32 {
 }
 
 fn global_logger_case(rep: &mut Report) {
+    for mode in ["0", "1"] {
+        global_logger_case_mode(rep, mode);
+    }
+}
+
+fn global_logger_case_mode(rep: &mut Report, mode: &str) {
     if rep.only.is_some() {
         return;
     }
     let sc = Scratch::new("c08g");
-    match crate::childproc::run_child(&["c08global".to_owned(), sc.path.to_str().unwrap().to_owned()], &[], std::time::Duration::from_secs(120)) {
+    match crate::childproc::run_child(&["c08global".to_owned(), sc.path.to_str().unwrap().to_owned(), mode.to_owned()], &[], std::time::Duration::from_secs(120)) {
         Err(e) => rep.inconclusive(&format!("cannot spawn the global-logger child: {}", e)),
         Ok(o) if o.timed_out => rep.inconclusive("global-logger child timed out (watchdog)"),
         Ok(o) => {
